@@ -25,7 +25,8 @@ Inductive label :=
 | LSubRelease (j : nat)        (* releases the lock; submit() returns *)
 | LSubWait (j : nat)           (* future.result() returns / raises *)
 (* worker j *)
-| LPopen (j : nat) (ok : bool) (* spawns the solver process (ok) or fails to *)
+| LSpawnEnter (j : nat)        (* takes the job's spawn lock and tests whether a cancel was requested *)
+| LPopen (j : nat) (ok : bool) (* spawns the solver process (ok) or fails to; releases the spawn lock *)
 | LExit (j : nat)              (* OS: the process of job j terminates by itself *)
 | LCommRet (j : nat) (a : answer) (* communicate() returns the output *)
 | LCommTimeout (j : nat)       (* communicate() raises TimeoutExpired: time limit exceeded *)
@@ -47,6 +48,7 @@ Inductive label :=
 Inductive exn_class := EcSubTimeout   (* subprocess.TimeoutExpired *)
                      | EcPsTimeout    (* psutil.TimeoutExpired *)
                      | EcNoProc       (* psutil.NoSuchProcess *)
+                     | EcShutdown     (* halmos.processes.ShutdownError (a RuntimeError) *)
                      | EcAny.         (* Exception: catches each of the above *)
 Inductive receiver := RcPsutil (* psutil.Process *) | RcPopen (* subprocess.Popen *).
 
@@ -55,7 +57,8 @@ Inductive receiver := RcPsutil (* psutil.Process *) | RcPopen (* subprocess.Pope
 Definition catches1 (h c : exn_class) : bool :=
   match h, c with
   | EcAny, _ => true
-  | EcSubTimeout, EcSubTimeout | EcPsTimeout, EcPsTimeout | EcNoProc, EcNoProc => true
+  | EcSubTimeout, EcSubTimeout | EcPsTimeout, EcPsTimeout | EcNoProc, EcNoProc
+  | EcShutdown, EcShutdown => true
   | _, _ => false
   end.
 Definition catches (hs : list exn_class) (c : exn_class) : bool := existsb (fun h => catches1 h c) hs.
@@ -108,6 +111,10 @@ Definition cancelled_while_spawned (j : nat) (tr : list label) : Prop :=
    lock (all its cancel tasks come later) *)
 Definition spawned_before_acquire (k j : nat) (tr : list label) : Prop :=
   exists pre post, tr = pre ++ LSdAcquire k :: post /\ In (LPopen j true) pre.
+
+(* a solver process is spawned for job j after a cancel task for j has run *)
+Definition spawned_after_cancel (j : nat) (tr : list label) : Prop :=
+  exists pre post k, tr = pre ++ LSdCancel k j :: post /\ In (LPopen j true) post.
 
 (* ---- a job that exceeded its time limit is reported as unknown ------------- *)
 Definition spec_timeout_verdict : verdict := VUnknown.
